@@ -27,6 +27,10 @@ def extra(tier):
     from . import misc_probe
 
     res += misc_probe.run_nested(runner.SEED)
+    # pinned values of an outer traced scalar that meets an inner traced array (x ** p at p == 2 / 0 / 1, x * p at p == 1, ...)
+    from . import pinned_probe
+
+    res += pinned_probe.run_nested(runner.SEED)
     return res
 
 
